@@ -164,6 +164,10 @@ type c19Scenario struct {
 	prev      *c19Fixture // nil = first save
 	next      *c19Fixture
 	strayTemp bool // garbage temp files from "earlier crashes" are present before the run
+	// files, when non-nil, is the complete content of the state directory before the run (the
+	// snapshot taken after an earlier crash); prev then only describes what Load returned there.
+	files map[string][]byte
+	first *c19CrashReplay // the earlier crash that produced files (for replays)
 }
 
 type c19Run struct {
@@ -174,7 +178,10 @@ type c19Run struct {
 	loadErr  error
 	loaded   state.ClusterState
 	temps    int
-	outcome  string // old | new | absent
+	files    map[string][]byte // the state directory right after the run
+	outcome  string            // old | new | absent
+	where    string            // description of the crash point (for messages)
+	rp       c19CrashReplay
 	viol     *ev.Violation
 	position int    // 1-based index among Save's syscalls of the call that was killed; 0 = before Save
 	killedAt string // name of the killed syscall
@@ -186,6 +193,151 @@ type c19CrashReplay struct {
 	Scenario string `json:"scenario"`
 	Syscall  string `json:"syscall"`
 	When     int    `json:"when"`
+	// second crash in a row (thorough): Save #2 of the "much-shorter" state, killed here
+	Syscall2 string `json:"syscall2,omitempty"`
+	When2    int    `json:"when2,omitempty"`
+	Second   bool   `json:"second,omitempty"`
+	Follow   string `json:"follow_up_save,omitempty"` // informative: which later Save failed the oracle
+}
+
+// c19Follow is one later Save that is run after a crash: a state whose encoding is shorter
+// than / as long as / longer than the state the crashed Save was writing.
+type c19Follow struct {
+	kind string
+	fx   *c19Fixture
+}
+
+func c19MakeFollows(root string, base, tiny *c19Fixture) ([]c19Follow, error) {
+	var out []c19Follow
+	add := func(kind, id string, cmp func(n, b int) bool) error {
+		st := base.st.Clone()
+		st.ClusterID = id
+		fx, err := c19MakeFixture(root, base.name+"/"+kind, st)
+		if err != nil {
+			return err
+		}
+		if !cmp(len(fx.bytes), len(base.bytes)) {
+			return fmt.Errorf("follow-up state %s/%s has %d bytes, base %d", base.name, kind, len(fx.bytes), len(base.bytes))
+		}
+		out = append(out, c19Follow{kind: kind, fx: &fx})
+		return nil
+	}
+	id := base.st.ClusterID
+	if len(id) >= 2 {
+		if err := add("shorter-by-1", id[:len(id)-1], func(n, b int) bool { return n == b-1 }); err != nil {
+			return nil, err
+		}
+	}
+	if tiny != nil && len(tiny.bytes) < len(base.bytes) {
+		out = append(out, c19Follow{kind: "much-shorter", fx: tiny})
+	}
+	if err := add("equal-size", id[:len(id)-1]+"X", func(n, b int) bool { return n == b }); err != nil {
+		return nil, err
+	}
+	if err := add("longer", id+strings.Repeat("L", 300), func(n, b int) bool { return n == b+300 }); err != nil {
+		return nil, err
+	}
+	return out, nil
+}
+
+type c19FollowResult struct {
+	kind    string
+	outcome string
+	viol    *ev.Violation
+}
+
+// c19RunFollowUps: from the directory image left by a crash (or by a completed Save), each
+// later real Store.Save must make exactly its state loadable.
+func c19RunFollowUps(res *c19Run, follows []c19Follow, rp c19CrashReplay, where string) []c19FollowResult {
+	stateDir := filepath.Join(res.dir, "data")
+	path := filepath.Join(stateDir, c19StateName)
+	postCanon := ""
+	if res.loadErr == nil {
+		postCanon = c19Canon(res.loaded)
+	}
+	var out []c19FollowResult
+	for _, f := range follows {
+		fr := c19FollowResult{kind: f.kind}
+		rpf := rp
+		rpf.Follow = f.kind
+		fail := func(fp, format string, a ...any) {
+			fr.viol = &ev.Violation{Fingerprint: fp, System: "save-after-crash", Replay: rpf,
+				Message: fmt.Sprintf(format, a...) + fmt.Sprintf(" | later Save of the %s state (%d bytes) after: %s", f.kind, len(f.fx.bytes), where)}
+		}
+		if err := c19Restore(stateDir, res.files); err != nil {
+			fr.outcome = "harness-error"
+			fail("C19:harness-restore-failed", "cannot restore the post-crash directory: %v", err)
+			out = append(out, fr)
+			continue
+		}
+		store := statefile.New(path)
+		saveErr := store.Save(context.Background(), f.fx.st)
+		got, loadErr := store.Load(context.Background())
+		switch {
+		case saveErr != nil:
+			// A refused Save is outside the property; the file must still be what it was, or the new state.
+			fr.outcome = "save-refused"
+			same := (loadErr == nil && (c19Canon(got) == postCanon || c19Canon(got) == f.fx.canon)) || (loadErr != nil && errors.Is(loadErr, os.ErrNotExist) && res.loadErr != nil)
+			if !same {
+				fail("C19:refused-save-after-crash-damaged-file", "Save failed (%v) and Load now returns err=%v", saveErr, loadErr)
+			}
+		case loadErr != nil:
+			fr.outcome = "NOT-LOADABLE"
+			fail("C19:save-after-crash-not-loadable", "Save returned nil but Store.Load fails: %v", loadErr)
+		case c19Canon(got) != f.fx.canon:
+			fr.outcome = "WRONG-STATE"
+			fail("C19:save-after-crash-wrong-state", "Save returned nil but Load returns another state (cluster %q revision %d checksum %s)", got.ClusterID, got.Revision, got.Checksum)
+		default:
+			if sum, err := state.Checksum(got); err != nil || sum != got.Checksum {
+				fr.outcome = "BAD-CHECKSUM"
+				fail("C19:loaded-state-checksum-invalid", "loaded state carries checksum %q, recomputed %q (%v)", got.Checksum, sum, err)
+			} else {
+				fr.outcome = "saved-and-loaded:" + f.kind
+			}
+		}
+		out = append(out, fr)
+	}
+	return out
+}
+
+// c19StrayGarbage is longer than every fixture, so that a Save that reuses a stray temp file
+// without truncating it keeps a stale tail.
+func c19StrayGarbage() []byte {
+	return []byte("{\"schema_version\":1,\"garbage" + strings.Repeat("-stale-temp-file-content", 400))
+}
+
+func c19Snapshot(dir string) (map[string][]byte, error) {
+	out := map[string][]byte{}
+	ents, err := os.ReadDir(dir)
+	if err != nil {
+		return nil, err
+	}
+	for _, e := range ents {
+		b, err := os.ReadFile(filepath.Join(dir, e.Name()))
+		if err != nil {
+			return nil, err
+		}
+		out[e.Name()] = b
+	}
+	return out, nil
+}
+
+func c19Restore(dir string, files map[string][]byte) error {
+	ents, err := os.ReadDir(dir)
+	if err != nil {
+		return err
+	}
+	for _, e := range ents {
+		if err := os.Remove(filepath.Join(dir, e.Name())); err != nil {
+			return err
+		}
+	}
+	for n, b := range files {
+		if err := os.WriteFile(filepath.Join(dir, n), b, 0o600); err != nil {
+			return err
+		}
+	}
+	return nil
 }
 
 func c19RunHelper(root, helper string, sc *c19Scenario, sysName string, when int) (*c19Run, error) {
@@ -202,14 +354,22 @@ func c19RunHelper(root, helper string, sc *c19Scenario, sysName string, when int
 	mode := "first"
 	if sc.prev != nil {
 		mode = "replace"
-		if err := os.WriteFile(path, sc.prev.bytes, 0o600); err != nil {
+	}
+	if sc.files != nil {
+		if err := c19Restore(stateDir, sc.files); err != nil {
 			return nil, err
 		}
-	}
-	if sc.strayTemp {
-		for _, n := range []string{c19StateName + ".tmp", c19StateName + ".123456789.tmp"} {
-			if err := os.WriteFile(filepath.Join(stateDir, n), []byte("{\"schema_version\":1,\"garbage"), 0o600); err != nil {
+	} else {
+		if sc.prev != nil {
+			if err := os.WriteFile(path, sc.prev.bytes, 0o600); err != nil {
 				return nil, err
+			}
+		}
+		if sc.strayTemp {
+			for _, n := range []string{c19StateName + ".tmp", c19StateName + ".123456789.tmp"} {
+				if err := os.WriteFile(filepath.Join(stateDir, n), c19StrayGarbage(), 0o600); err != nil {
+					return nil, err
+				}
 			}
 		}
 	}
@@ -262,12 +422,11 @@ func c19RunHelper(root, helper string, sc *c19Scenario, sysName string, when int
 		}
 	}
 	// what does the directory hold now?
-	ents, err := os.ReadDir(stateDir)
-	if err != nil {
+	if res.files, err = c19Snapshot(stateDir); err != nil {
 		return nil, err
 	}
-	for _, e := range ents {
-		if e.Name() != c19StateName {
+	for n := range res.files {
+		if n != c19StateName {
 			res.temps++
 		}
 	}
@@ -279,10 +438,15 @@ func c19RunHelper(root, helper string, sc *c19Scenario, sysName string, when int
 // decode to the previous or the new complete state.
 func c19Judge(sc *c19Scenario, res *c19Run, sysName string, when int) {
 	rp := c19CrashReplay{Kind: "crash", Scenario: sc.name, Syscall: sysName, When: when}
+	if sc.first != nil {
+		rp = *sc.first
+		rp.Second, rp.Syscall2, rp.When2 = true, sysName, when
+	}
 	where := fmt.Sprintf("scenario %s, kill on entry of %s #%d (Save syscall %d: %s), %d stray file(s) in the directory", sc.name, sysName, when, res.position, res.killedAt, res.temps)
 	if sysName == "" {
 		where = fmt.Sprintf("scenario %s, Save completed (exit %s)", sc.name, res.exit)
 	}
+	res.where, res.rp = where, rp
 	fail := func(fp, format string, a ...any) {
 		res.viol = &ev.Violation{Fingerprint: fp, Message: fmt.Sprintf(format, a...) + " | " + where, System: "save-crash-points", Replay: rp}
 	}
@@ -330,8 +494,10 @@ type c19Point struct {
 	position int // expected position among Save's syscalls (0 = before Save)
 }
 
-func c19CrashSection(r *ev.R, root, helper string, fix map[string]*c19Fixture) {
+func c19CrashSection(r *ev.R, root, helper string, fix map[string]*c19Fixture, follows map[string][]c19Follow) {
 	e := r.NewEnum("save-crash-points")
+	e2 := r.NewEnum("save-after-crash")
+	var followOK, followWithLeftover, followRefused, secondCrashes int
 	scenarios := c19Scenarios(fix, r.Thorough())
 	var (
 		mu          sync.Mutex
@@ -344,8 +510,35 @@ func c19CrashSection(r *ev.R, root, helper string, fix map[string]*c19Fixture) {
 	)
 	record := func(sc *c19Scenario, p c19Point, res *c19Run) {
 		c19Judge(sc, res, p.sys, p.when)
+		var frs []c19FollowResult
+		if res.viol == nil {
+			frs = c19RunFollowUps(res, follows[sc.next.name], res.rp, res.where)
+		}
 		mu.Lock()
 		defer mu.Unlock()
+		for _, fr := range frs {
+			e2.Case(fmt.Sprintf("%s/%s/%d/%s", sc.name, p.sys, p.when, fr.kind), res.temps > 0, fr.outcome)
+			if strings.HasPrefix(fr.outcome, "saved-and-loaded") {
+				followOK++
+				if res.temps > 0 {
+					followWithLeftover++
+				}
+			}
+			if fr.outcome == "save-refused" {
+				followRefused++
+			}
+			if fr.viol != nil {
+				r.Violation(*fr.viol)
+			}
+			k := "follow/" + fr.outcome
+			if !sampled[k] && res.temps > 0 {
+				sampled[k] = true
+				r.Sample(map[string]any{"scenario": sc.name, "inject": p.sys, "when": p.when, "killed_at_save_syscall": res.position, "files_left_by_crash": len(res.files), "later_save": fr.kind, "result": fr.outcome})
+			}
+		}
+		if sc.first != nil && p.sys != "" {
+			secondCrashes++
+		}
 		if covered[sc.name] == nil {
 			covered[sc.name] = map[int]bool{}
 			outcomes[sc.name] = map[string]int{}
@@ -447,6 +640,13 @@ func c19CrashSection(r *ev.R, root, helper string, fix map[string]*c19Fixture) {
 						return // the counter was never reached: not a crash point
 					}
 					record(sc, p, res)
+					seeded := 0
+					if sc.strayTemp {
+						seeded = 2
+					}
+					if r.Thorough() && res.viol == nil && res.position > 0 && res.temps > seeded {
+						c19SecondCrash(r, root, helper, sc, p, res, fix["tiny"], record)
+					}
 				}(p)
 			}
 			wg.Wait()
@@ -504,8 +704,66 @@ func c19CrashSection(r *ev.R, root, helper string, fix map[string]*c19Fixture) {
 	r.Guard("both-outcomes-per-scenario", okBoth, "load results per scenario (Save-phase points): %v", outcomes)
 	r.Guard("stray-temp-files-present-at-load", tempsSeen >= len(scenarios), "crash points after which Load ran with temp files in the directory: %d", tempsSeen)
 	r.Count("crash_points_before_save", int64(preSaveRuns))
+	r.Count("second_crash_points", int64(secondCrashes))
+	r.Count("later_saves_refused", int64(followRefused))
+	r.Guard("later-saves-succeed-over-leftover-temp-files", followOK >= 50 && followWithLeftover >= 30, "later Saves that returned nil and were loaded back=%d, of which with temp files left in the directory=%d, refused=%d", followOK, followWithLeftover, followRefused)
+	if r.Thorough() {
+		r.Guard("two-crashes-in-a-row", secondCrashes >= 100, "second-Save crash points executed from a post-crash directory=%d", secondCrashes)
+	}
+	kinds := map[string][]string{}
+	for n, fs := range follows {
+		for _, f := range fs {
+			kinds[n] = append(kinds[n], fmt.Sprintf("%s=%dB", f.kind, len(f.fx.bytes)))
+		}
+	}
+	e2.Done(true, map[string]any{"later_saves_per_crash_point": kinds}, "after every crash point (and after every completed Save) the post-crash directory image is restored once per later state and a real Store.Save + Store.Load of a shorter / equal-size / longer state runs in the test process; non-trivial = temp files were present in the directory")
 	bounds := map[string]any{"scenarios": len(scenarios), "syscall_set": c19Syscalls, "save_syscalls": saveCalls}
 	e.Done(true, bounds, "one real process kill (SIGKILL on syscall entry, injected by strace) per file syscall instance of Store.Save, plus the completed Save; non-trivial = kill inside Save")
+}
+
+// c19SecondCrash (thorough): the directory left by the first crash is the start of a second
+// helper process that saves the much-shorter state and is killed at every file syscall of that
+// Save as well; the oracle is the same (previous = what Load returned after the first crash).
+func c19SecondCrash(r *ev.R, root, helper string, sc *c19Scenario, p c19Point, res *c19Run, tiny *c19Fixture, record func(*c19Scenario, c19Point, *c19Run)) {
+	sc2 := &c19Scenario{
+		name:  fmt.Sprintf("%s >> killed at Save syscall %d (%s) >> second Save (much-shorter state)", sc.name, res.position, res.killedAt),
+		next:  tiny,
+		files: res.files,
+		first: &c19CrashReplay{Kind: "crash", Scenario: sc.name, Syscall: p.sys, When: p.when},
+	}
+	if res.loadErr == nil {
+		sc2.prev = &c19Fixture{name: "state-after-first-crash", canon: c19Canon(res.loaded)}
+	}
+	base, err := c19RunHelper(root, helper, sc2, "", 0)
+	if err != nil {
+		r.HarnessError("%s: baseline: %v", sc2.name, err)
+		return
+	}
+	defer os.RemoveAll(base.dir)
+	if base.exit != "ok" || base.marker < 0 {
+		r.HarnessError("%s: baseline helper run did not complete (exit %q)", sc2.name, base.exit)
+		return
+	}
+	record(sc2, c19Point{}, base)
+	before, seen := map[string]int{}, map[string]int{}
+	for _, c := range base.calls[:base.marker+1] {
+		before[c.name]++
+	}
+	for i, c := range base.calls[base.marker+1:] {
+		seen[c.name]++
+		p2 := c19Point{sys: c.name, when: before[c.name] + seen[c.name], position: i + 1}
+		res2, err := c19RunHelper(root, helper, sc2, p2.sys, p2.when)
+		if err != nil {
+			r.HarnessError("%s: %s #%d: %v", sc2.name, p2.sys, p2.when, err)
+			return
+		}
+		if res2.exit == "killed" {
+			record(sc2, p2, res2)
+		} else if res2.exit != "ok" {
+			r.HarnessError("%s: %s #%d: %s", sc2.name, p2.sys, p2.when, res2.exit)
+		}
+		os.RemoveAll(res2.dir)
+	}
 }
 
 // ---------------------------------------------------------------- corruption section
@@ -772,13 +1030,22 @@ func TestVerifC19(t *testing.T) {
 	}
 	defer os.RemoveAll(root)
 	fix := map[string]*c19Fixture{}
-	for name, st := range map[string]state.ClusterState{"small": c19Small(), "mid": c19Mid(), "large": c19Large()} {
+	for name, st := range map[string]state.ClusterState{"tiny": c19Tiny(), "small": c19Small(), "mid": c19Mid(), "large": c19Large()} {
 		fx, err := c19MakeFixture(root, name, st)
 		if err != nil {
 			r.HarnessError("%v", err)
 			return
 		}
 		fix[name] = &fx
+	}
+	follows := map[string][]c19Follow{}
+	for _, name := range []string{"tiny", "small", "mid", "large"} {
+		fs, err := c19MakeFollows(root, fix[name], fix["tiny"])
+		if err != nil {
+			r.HarnessError("%v", err)
+			return
+		}
+		follows[name] = fs
 	}
 	helper := os.Getenv("VERIF_HELPER_STATEFILE")
 
@@ -803,6 +1070,28 @@ func TestVerifC19(t *testing.T) {
 			}
 			c19Judge(sc, res, rp.Syscall, rp.When)
 			fmt.Printf("replay crash %s inject=%s when=%d: exit=%s killed at Save syscall %d (%s), load=%s err=%v\n", rp.Scenario, rp.Syscall, rp.When, res.exit, res.position, res.killedAt, res.outcome, res.loadErr)
+			if rp.Second && res.viol == nil {
+				sc2 := &c19Scenario{name: sc.name + " >> second Save (much-shorter state)", next: fix["tiny"], files: res.files,
+					first: &c19CrashReplay{Kind: "crash", Scenario: sc.name, Syscall: rp.Syscall, When: rp.When}}
+				if res.loadErr == nil {
+					sc2.prev = &c19Fixture{name: "state-after-first-crash", canon: c19Canon(res.loaded)}
+				}
+				sc = sc2
+				if res, err = c19RunHelper(root, helper, sc2, rp.Syscall2, rp.When2); err != nil {
+					r.HarnessError("replay: %v", err)
+					return
+				}
+				c19Judge(sc2, res, rp.Syscall2, rp.When2)
+				fmt.Printf("replay second crash inject=%s when=%d: exit=%s killed at Save syscall %d (%s), load=%s err=%v\n", rp.Syscall2, rp.When2, res.exit, res.position, res.killedAt, res.outcome, res.loadErr)
+			}
+			if res.viol == nil {
+				for _, fr := range c19RunFollowUps(res, follows[sc.next.name], res.rp, res.where) {
+					fmt.Printf(" later Save %s: %s\n", fr.kind, fr.outcome)
+					if fr.viol != nil && res.viol == nil {
+						res.viol = fr.viol
+					}
+				}
+			}
 			if res.viol != nil {
 				fmt.Printf(" VIOLATES: [%s] %s\n", res.viol.Fingerprint, res.viol.Message)
 				r.MarkReplayReproduced()
@@ -839,7 +1128,7 @@ func TestVerifC19(t *testing.T) {
 		r.HarnessError("strace is not available: %v", err)
 		return
 	}
-	c19CrashSection(r, root, helper, fix)
+	c19CrashSection(r, root, helper, fix, follows)
 	c19CorruptionSection(r, root, fix)
 
 	r.Assume("crash model = process kill (SIGKILL) between file-system calls of the saving thread; a kill is delivered on syscall entry, so each syscall of Save either happened completely or not at all (power loss / torn pages below the syscall level are not modelled)")
